@@ -16,7 +16,8 @@ def Val.shapeB (env : Env) (v : Val) : Bool :=
   (allMapOrigins.all fun o => !env.sub (v.typeOf env) (env.mapCls o) || v.items.isSome) &&
   (!env.sub (v.typeOf env) env.tupleCls || v.tupleItems.isSome) &&
   (env.sub (v.typeOf env) env.iteratorCls == (match v with | .iterator _ _ => true | _ => false)) &&
-  (match v with | .ntup _ names xs => names.length == xs.length | _ => true)
+  (match v with | .ntup _ names xs => names.length == xs.length | _ => true) &&
+  (!env.isNT (v.typeOf env) || v.hasAsdict)            -- an instance of a NamedTuple class has `_asdict`
 
 /-- facts about the class table the proofs use: issubclass is reflexive, every class object is an instance of `type`,
     an `int` is well-shaped (elements of a `bytes` value) -/
@@ -24,6 +25,7 @@ structure WfEnv (env : Env) : Prop where
   refl : ∀ c, env.sub c c = true
   metaSub : ∀ c, env.sub (env.metaOf c) env.typeCls = true
   intShape : Val.shapeB env (.lit (.int 0)) = true
+  ntDown : ∀ c d, env.sub c d = true → env.isNT d = true → env.isNT c = true     -- a subclass of a NamedTuple class inherits `_fields`
 
 mutual
 /-- hereditary well-formedness -/
@@ -60,6 +62,24 @@ def plainL : List Val → Bool
 def plainKV : List (Val × Val) → Bool
   | [] => true
   | (k, v) :: kvs => k.plain && v.plain && plainKV kvs
+end
+
+mutual
+/-- the value contains no one-shot iterator (guard of C01 since the NamedTuple repair: the only exclusion left; region
+    `iteratorItemsUnchecked`).  `iterFree_eq`: `= !v.hasIter`. -/
+def Val.iterFree : Val → Bool
+  | .coll _ xs => iterFreeL xs
+  | .tup _ xs => iterFreeL xs
+  | .ntup _ _ xs => iterFreeL xs
+  | .iterator _ _ => false
+  | .mapping _ kvs => iterFreeKV kvs
+  | _ => true
+def iterFreeL : List Val → Bool
+  | [] => true
+  | x :: xs => x.iterFree && iterFreeL xs
+def iterFreeKV : List (Val × Val) → Bool
+  | [] => true
+  | (k, v) :: kvs => k.iterFree && v.iterFree && iterFreeKV kvs
 end
 
 mutual
@@ -174,7 +194,36 @@ def Ann.strAnnOk (env : Env) (a : Ann) (v : Val) : Bool :=
   | .strAnn n => (env.ctx n).isSome || !(env.mroNames (v.typeOf env)).contains n
   | _ => true
 
+mutual
+/-- `conforms`, except that an instance of an annotated NamedTuple class also has to carry conforming values in its annotated fields -
+    what the repaired `_is_instance` checks.  `conforms ∧ ¬conformsNT` is the region `namedtupleFieldMismatch` (reported by the driver). -/
+def conformsNT (env : Env) : Ann → Val → Bool
+  | .clsF c names anns, v => env.sub (v.typeOf env) c &&
+      (!env.isNT c || (match v with | .ntup _ vn xs => fieldsNT env names anns vn xs | _ => true))
+  | .union _ ms, v => anyNT env ms v
+  | .seq _ o a, v => env.sub (v.typeOf env) (env.seqCls o) &&
+      (match v.iter with | some xs => xs.all (fun x => conformsNT env a x) | Option.none => false)
+  | .map _ o k w, v => env.sub (v.typeOf env) (env.mapCls o) &&
+      (match v.items with | some kvs => kvs.all (fun kv => conformsNT env k kv.1 && conformsNT env w kv.2) | Option.none => false)
+  | .tuple _ items, v => env.sub (v.typeOf env) env.tupleCls &&
+      (match v.tupleItems with | some xs => zipNT env items xs | Option.none => false)
+  | .tupleVar _ a, v => env.sub (v.typeOf env) env.tupleCls &&
+      (match v.tupleItems with | some xs => xs.all (fun x => conformsNT env a x) | Option.none => false)
+  | a, v => conforms env a v
+def anyNT (env : Env) : List Ann → Val → Bool
+  | [], _ => false
+  | a :: as, v => conformsNT env a v || anyNT env as v
+def zipNT (env : Env) : List Ann → List Val → Bool
+  | [], [] => true
+  | a :: as, x :: xs => conformsNT env a x && zipNT env as xs
+  | _, _ => false
+def fieldsNT (env : Env) : List NameId → List Ann → List NameId → List Val → Bool
+  | n :: ns, a :: as, vn, xs =>
+      (match lookupField vn xs n with | some x => conformsNT env a x | Option.none => true) && fieldsNT env ns as vn xs
+  | _, _, _, _ => true
+end
+
 /-- all hypotheses of C01 `sound_partial` about one case (the class table is well-formed by construction of the harness) -/
-def underSound (env : Env) (a : Ann) (v : Val) : Bool := a.strAnnOk env v && a.noSpecial && v.wf env && v.plain
+def underSound (env : Env) (a : Ann) (v : Val) : Bool := a.strAnnOk env v && a.noSpecial && v.wf env && v.iterFree
 
 end PedVerif.Checker
